@@ -86,7 +86,9 @@ static inline struct optional_E *L0_optional_E__op_assign__std_nullopt_t(struct 
 /* ------------------------------------------------------------------------------------------------ SetSpec, concrete: the large
  * container of SmallSet as a sorted array of at most CS_MAX elements (std::set semantics), two instances told apart by address */
 #if defined(WITH_SETS) && defined(HAVE_pair_pE_b) && defined(HAVE_GhostCmp)
+#ifndef CS_MAX
 #define CS_MAX 10
+#endif
 struct cset { uint64_t obj, off; uint64_t n; E buf[CS_MAX]; };
 extern struct cset g_cs[2];
 static inline struct cset *l0_cs(const void *set) {
